@@ -5,12 +5,60 @@
 #include <cstdlib>
 #include <cstring>
 #include <string>
+#include <sys/mman.h>
+
 #include <unordered_map>
 
 namespace ta {
 
+// The ledger's own table lives in an mmap'ed arena, outside the malloc heap, so that heap-balance
+// oracles (bytes allocated before == after) never see the table grow or rehash.
+struct Arena {
+  static constexpr size_t kBytes = 1ull << 32;
+  char* base = nullptr;
+  size_t used = 0;
+  void* freelist[9] = {};  // blocks of 8..64 bytes, by size/8
+  void* get(size_t n) {
+    n = (n + 7) & ~size_t(7);
+    if (n <= 64 && freelist[n / 8]) {
+      void* p = freelist[n / 8];
+      freelist[n / 8] = *(void**)p;
+      return p;
+    }
+    if (!base) base = (char*)mmap(nullptr, kBytes, PROT_READ | PROT_WRITE, MAP_PRIVATE | MAP_ANONYMOUS | MAP_NORESERVE, -1, 0);
+    if (base == (char*)MAP_FAILED || used + n > kBytes) abort();
+    void* p = base + used;
+    used += n;
+    return p;
+  }
+  void put(void* p, size_t n) {
+    n = (n + 7) & ~size_t(7);
+    if (n <= 64) {
+      *(void**)p = freelist[n / 8];
+      freelist[n / 8] = p;
+    }  // larger blocks (bucket arrays) are simply abandoned: they are rare
+  }
+};
+static inline Arena& arena() {
+  static Arena a;
+  return a;
+}
+template <class T>
+struct ArenaAlloc {
+  using value_type = T;
+  ArenaAlloc() = default;
+  template <class U>
+  ArenaAlloc(const ArenaAlloc<U>&) {}
+  T* allocate(size_t n) { return (T*)arena().get(n * sizeof(T)); }
+  void deallocate(T* p, size_t n) { arena().put(p, n * sizeof(T)); }
+  template <class U>
+  bool operator==(const ArenaAlloc<U>&) const { return true; }
+  template <class U>
+  bool operator!=(const ArenaAlloc<U>&) const { return false; }
+};
+
 struct Ledger {
-  std::unordered_map<void*, size_t> live;
+  std::unordered_map<void*, size_t, std::hash<void*>, std::equal_to<void*>, ArenaAlloc<std::pair<void* const, size_t>>> live;
   uint64_t mallocs = 0, frees = 0;
   int errors = 0;
   std::string first_error;
